@@ -150,27 +150,78 @@ def _q(ck, R, b, s, tag):
     ck.ob(R, f"error-propagated/{tag}", propagated(b.facts, b, s), "the cursor's Result is propagated (`?` or an equivalent match): an I/O error is returned, not folded into end-of-iteration", b, s)
 
 
+def _phase(F, adt, b):
+    """the field that tells the first call from the later ones: a bool, or a field-less enum of the crate.
+    Returns (field, initial value, {value: arm target}, switch block) — values are 0/1 or variant names"""
+    fields = F.adts[adt]["variants"][0]["fields"]
+    cands = []
+    for f in fields:
+        if f["ty"] == "bool":
+            cands.append((f["name"], "bool"))
+        elif f["ty"] in F.adts and F.adts[f["ty"]]["kind"] == "Enum" and all(not v["fields"] for v in F.adts[f["ty"]]["variants"]):
+            cands.append((f["name"], "enum"))
+    for name, kind in cands:
+        for bb in sorted(b.normal_blocks()):
+            t = b.term(bb)
+            if t["t"] != "switch":
+                continue
+            e, enum, labels, oth = switch_on(b, bb)
+            if kind == "bool" and is_self_field(e, name):
+                zero = [tb for v, tb in t["arms"] if int(v) == 0]
+                if zero:
+                    return name, kind, {1: t["otherwise"], 0: zero[0]}, bb
+            if kind == "enum" and e.k == "discr" and is_self_field(e.a[0], name):
+                arms = dict(labels)
+                return name, kind, arms, bb
+    return None
+
+
 def r2_start(ck, F):
     R = "C05-R2"
     for d in ("fwd", "rev"):
-        anchor, flag, step = NEXT[d]
+        anchor, _flag, step = NEXT[d]
         b = F.body(A(anchor))
-        fs = _flag_switch(b, flag)
-        if not ck.ob(R, f"flag-read/{d}", fs is not None, f"{anchor} branches on {flag}", b):
-            continue
-        sw, ft, ff = fs
-        first = arm_region(b, sw, ft)
-        later = arm_region(b, sw, ff)
         adt = "reader::prefix_iter::PrefixIter" if d == "fwd" else "reader::prefix_iter::RevPrefixIter"
-        st = field_stores(F, adt, flag)
-        ck.exact(R, f"stores to {flag}", len(st), 1, F.config)
-        for bb_, site, s in st:
-            v = const_val(bb_._expr_of_def((site, "assign", s["rv"])))
-            ck.ob(R, f"flag-cleared-first/{d}", bb_.path == b.path and v == 0 and site.bb in first, "the flag is cleared on the first-call path", bb_, site)
+        ph = _phase(F, adt, b)
+        if not ck.ob(R, f"flag-read/{d}", ph is not None, f"{anchor} branches on the field that tells the first call from the later ones", b):
+            continue
+        flag, kind, arms, sw = ph
+
+        def val(e):
+            if kind == "bool":
+                return const_val(e)
+            e = e.strip()
+            if e.k == "agg" and not e.a:
+                return e.x.get("variant")
+            if e.k == "text":
+                return e.x.get("variant")
+            return None
+        init = set()
         for bb_, s, rv in aggregates(F, adt):
-            ck.ob(R, f"flag-initially-true/{d}", const_val(agg_field_expr(bb_, s, rv, flag)) == 1 and is_arg(agg_field_expr(bb_, s, rv, "prefix"), "prefix") and is_arg(agg_field_expr(bb_, s, rv, "cursor"), "cursor"), "new(): flag set, prefix and cursor stored as given", bb_, s)
-        lc = [n for s, n, t in cursor_calls(b, later)] + [callee_name(c) for s, c, t in calls(b, A("last_prefix")) if s.bb in later]
-        ck.ob(R, f"later-calls-one-step/{d}", lc == [step], f"after the first call: {lc} (expected exactly one {step})", b)
+            v0 = val(agg_field_expr(bb_, s, rv, flag))
+            init.add(v0)
+            ck.ob(R, f"flag-initially-true/{d}", v0 is not None and v0 in arms and is_arg(agg_field_expr(bb_, s, rv, "prefix"), "prefix") and is_arg(agg_field_expr(bb_, s, rv, "cursor"), "cursor"), f"new(): {flag} = {v0} (the first-call state), prefix and cursor stored as given", bb_, s)
+        if len(init) != 1 or None in init:
+            ck.ob(R, f"flag-read/{d}", False, f"initial value of {flag} not unique: {init}", b)
+            continue
+        v0 = init.pop()
+        first = arm_region(b, sw, arms[v0])
+        st = field_stores(F, adt, flag)
+        ck.floor(R, f"stores to {flag}", len(st), 1, F.config)
+        cleared = False
+        for bb_, site, s_ in st:
+            v = val(bb_._expr_of_def((site, "assign", s_["rv"])))
+            ck.ob(R, f"flag-never-rearmed/{d}", bb_.path == b.path and v is not None and v != v0, f"{flag} := {v} in {bb_.path.split('::')[-1]} (never set back to the first-call state {v0})", bb_, site)
+            if bb_.path == b.path and site.bb in first and v != v0:
+                cleared = True
+        ck.ob(R, f"flag-cleared-first/{d}", cleared, "the first-call state is left on the first-call path", b)
+        for v, tgt in arms.items():
+            if v == v0:
+                continue
+            reg = arm_region(b, sw, tgt)
+            lc = [n for s, n, t in cursor_calls(b, reg)] + [callee_name(c) for s, c, t in calls(b, A("last_prefix")) if s.bb in reg]
+            # a later state either advances by exactly one step or (an "exhausted" state) touches nothing
+            ck.ob(R, f"later-calls-one-step/{d}", lc in ([step], []), f"state {v}: {lc} (expected exactly one {step}, or no cursor operation at all)", b)
         if d == "fwd":
             fc = cursor_calls(b, first)
             ok = [n for s, n, t in fc] == ["move_on_key_greater_than_or_equal_to"] and is_self_field(b.arg_exprs(fc[0][0])[1], "prefix") and is_self_field(b.arg_exprs(fc[0][0])[0], "cursor")
